@@ -39,6 +39,13 @@ STRENGTHENED = """Checks strengthened because a seeded change was missed (genera
   handlers; this also uncovered a limitation of the scheduler itself: busy-waiting threads (`_start_receiver`) were given their
   turn only after parked threads had been resumed, so a preempted thread could never be overtaken by the connect thread. The
   scheduler now serves busy-waiters before it resumes parked threads (all simulation-based checks re-run, no new report).
+* **C07** `C07-any-function-13-in-wait-cra` - other inbound messages are no longer only the user's S10F3: function 13 / 14 on
+  other streams and primaries with built-in handlers arrive in every communication state.
+* **C20** `C20-subscription-recorded-after-enable` - op `subscribe_racing`: the equipment application triggers the event the
+  moment the host's S2F37 has enabled it, i.e. inside the host's `subscribe_collection_event` call.
+* **C06** `C06-stop-ends-dispatcher-start-revives` - family "slow handler across reconnect" (a handler that is still busy while
+  the link drops and comes back); a case no longer ends when the link is down, and what the peer sends on the final link must
+  all be delivered (in order), not only "at most once".
 
 Sibling catches (a change to one property's anchored code seen by another check as well): `C20-report-values-shared-across-reports`
 by C12; `C05-source-check-outside-lock` by C18; the reversal of fix d663f2e by C05 and C09.
@@ -60,7 +67,7 @@ def main():
         strengthened += bool(v.get("check_strengthened"))
     body = f"""### 8.2 Independently seeded changes (`/verif/seeded/<name>/`)
 
-{len(rows)} changes (five batches: 12 + 11 + 12 + 8 + 12) were written by fresh sub-agents that saw only the text of one property and a
+{len(rows)} changes (six batches: 12 + 11 + 12 + 8 + 12 + 10) were written by fresh sub-agents that saw only the text of one property and a
 scratch worktree of /repo (nothing from /verif). Each has `patch.diff`, `demo.py` (fails with the change, passes without)
 and `meta.json` (what it needs to manifest, why the suite does not notice, what was run). Every one was confirmed here in a
 scratch worktree of /repo HEAD (`python -m vf.selftest.seeded confirm <name>`: demo exit 0 without / exit 1 with the patch,
